@@ -190,6 +190,10 @@ func DecodeFlowRecord(header *RecordHeader, payload *bytes.Buffer) (FlowRecord, 
 			return flowRecord, &RecordError{header.DataFormat, err}
 		}
 		sampledHeader.HeaderData = payload.Bytes()
+		// header<> is an XDR opaque: its header_length bytes are followed by padding to a multiple of four
+		if uint64(sampledHeader.OriginalLength) < uint64(len(sampledHeader.HeaderData)) {
+			sampledHeader.HeaderData = sampledHeader.HeaderData[:sampledHeader.OriginalLength]
+		}
 		flowRecord.Data = sampledHeader
 	case FLOW_TYPE_ETH:
 		sampledEth := SampledEthernet{
